@@ -19,7 +19,7 @@ RULE = (
 )
 ASSUMPTIONS = ["integer PD alphabet (distinct eigenvalues with probability one, cond <= ~1e2)", "probe vectors are read from the InvQuadLogdet autograd node (ctx.probe_vectors); the preconditioner P from op._preconditioner()[1]"]
 CHUNK = 12
-CASE_TIMEOUT = 600
+CASE_TIMEOUT = 3600
 DT = torch.float64
 
 import linear_operator  # noqa: E402
